@@ -181,7 +181,8 @@ P = {
          "processes with different PYTHONHASHSEED must give identical results; the compiled initial state must satisfy the store/clock "
          "clauses and fresh_b."),
  "C18": ("Env", "Theorems (Props/C18.v; SMP/Decline): declining with k>1 offers leaves the shop untouched and removes exactly that offer; "
-         "declining the last offer advances the clock to the next event; the offers after a step are complete; truncation counts "
+         "declining the last offer advances the clock to the next event - STRICTLY, over whole runs of every instance, unless the decline ends the episode "
+         "(C18_declining_the_last_offer_strictly_advances_time, SMP/DeclineStrict.v); the offers after a step are complete; truncation counts "
          "fully-declined rounds and is reported iff the count exceeds the allowance, never when inactive. " + TIE +
          " middleware.step is replayed on the middleware model with its counters."),
  "C19": ("Obs", "Theorems (Props/C19.v; Obs/Reward, RewardP): exact rational reward model - non-final steps yield only the bounded "
